@@ -429,7 +429,7 @@ def build_native_runner(scratch, features='', toolchain=None, tag='native'):
     return exe, ''
 
 
-def replay_search(exe, harness, needle, budget=300000, timeout=150):
+def replay_search(exe, harness, needle, budget=300000, timeout=60):
     try:
         p = subprocess.run([exe, harness, 'search', str(budget), needle], capture_output=True, text=True, timeout=timeout)
     except subprocess.TimeoutExpired:
@@ -606,7 +606,7 @@ def check(prop, tier, seed, legs=('verus', 'kani'), keep=False, only=None):
         exe_cache = {}
         lines = []
         searched_fns = {}
-        search_budget_s = [600.0]
+        search_budget_s = [300.0]
         demoted = []
         for v, _ in new_v:
             hit = None
